@@ -681,9 +681,9 @@ def run(chk: framework.Check):
     stats = collections.Counter()
     corr_fail = []
     quick = chk.tier == "quick"
-    stream_plain(chk, drv, stats, corr_fail, 45 if quick else 500)
-    stream_td(chk, drv, stats, corr_fail, 40 if quick else 450)
-    stream_tagged(chk, drv, stats, corr_fail, 30 if quick else 350)
+    stream_plain(chk, drv, stats, corr_fail, 110 if quick else 1200)
+    stream_td(chk, drv, stats, corr_fail, 150 if quick else 1500)
+    stream_tagged(chk, drv, stats, corr_fail, 90 if quick else 900)
     # the witness of finding F34 must keep reproducing (else the entry is stale)
     n_f34 = chk.known_hits.get("F34", 0)
     chk.extra["finding_F34_reproduced"] = n_f34
